@@ -277,9 +277,8 @@ def self_check():
         for st in statuses(year):
             if value(year, 'standard_deduction', st) != S.standard_deduction(year, st):
                 bad.append(f'{year} {st}: standard deduction differs from hv.statutory')
-            # 15% rate ceiling is where the 35% bracket... no: RP sec. 3.03 amounts are independent of 3.01
-            # 28% AMT breakpoint for MFS is half the others (IRC 55(b)(1)(A)(ii))
         a = AMOUNTS[year]
+        # 28% AMT breakpoint for MFS is half the others (IRC 55(b)(1)(A)(ii))
         if a['amt_28pct_breakpoint']['MarriedFilingSeparately'] * 2 != a['amt_28pct_breakpoint']['Single']:
             bad.append(f'{year}: AMT breakpoint MFS is not half')
         if a['amt_exemption']['MarriedFilingSeparately'] * 2 != a['amt_exemption']['MarriedFilingJointly']:
